@@ -4,6 +4,7 @@ import (
 	"encoding/json"
 	"flag"
 	"fmt"
+	"go/types"
 	"os"
 	"path/filepath"
 	"regexp"
@@ -43,6 +44,7 @@ type checkOpts struct {
 	keep                    bool
 	verbose                 bool
 	noEvidence              bool
+	dump                    string
 }
 
 func cmdCheck(args []string) int {
@@ -57,6 +59,7 @@ func cmdCheck(args []string) int {
 	fs.BoolVar(&o.keep, "keep", false, "keep SMT files of failed obligations")
 	fs.BoolVar(&o.verbose, "v", false, "verbose")
 	fs.BoolVar(&o.noEvidence, "no-evidence", false, "do not write the evidence file")
+	fs.StringVar(&o.dump, "dump", "", "write every query into this directory")
 	fs.Parse(args)
 	if s := os.Getenv("VERIF_SEED"); s != "" {
 		o.seed, _ = strconv.Atoi(s)
@@ -77,6 +80,7 @@ type funcReport struct {
 	Unsup   []string
 	Err     string
 	Uses    []string
+	Lemmas  []string
 	Trusted bool
 }
 
@@ -132,6 +136,7 @@ func runCheck(o checkOpts) int {
 			if vc != nil {
 				r.Obls, r.Notes, r.Unsup = vc.obls, vc.notes, vc.unsup
 				r.Uses = sortedKeys(vc.e.uses)
+				r.Lemmas = vc.e.usesLemma
 			}
 			if err != nil {
 				r.Err = err.Error()
@@ -163,10 +168,56 @@ func runCheck(o checkOpts) int {
 	for _, m := range missing {
 		undecided = append(undecided, "function under contract not found in the tree: "+shortKey(m))
 	}
+	// lemmas: those tagged with the property, and those used by its functions
+	lemmaWanted := map[string]bool{}
+	for _, r := range reports {
+		has := false
+		for _, ob := range r.Obls {
+			if o.prop == "" || containsStr(ob.Props, o.prop) {
+				has = true
+			}
+		}
+		if has {
+			for _, l := range r.Lemmas {
+				lemmaWanted[l] = true
+			}
+		}
+	}
+	for _, ax := range w.specs.Axioms {
+		if !ax.Lemma {
+			continue
+		}
+		if o.onlyFunc != "" && !strings.Contains("lemma/"+ax.Name, o.onlyFunc) && !lemmaWanted[ax.Name] {
+			continue
+		}
+		if lemmaWanted[ax.Name] || containsStr(ax.Props, o.prop) || o.prop == "" {
+			ob, err := w.lemmaObligation(ax, o.prop)
+			if err != nil {
+				undecided = append(undecided, err.Error())
+				continue
+			}
+			obls = append(obls, ob)
+		}
+	}
+	// stale replay artefacts of this property
+	if old, _ := filepath.Glob(filepath.Join(o.verif, "evidence", "replay", sanitize(o.prop)+"-*")); o.prop != "" {
+		for _, f := range old {
+			os.Remove(f)
+		}
+	}
 	// discharge
 	needAgree := 1
 	if o.tier == "thorough" {
 		needAgree = 2
+	}
+	knownEarly := loadKnownFindings(filepath.Join(o.verif, "known_findings.txt"))
+	isKnown := func(name string) bool {
+		for _, k := range knownEarly {
+			if k.Prop == o.prop && k.Obligation == name {
+				return true
+			}
+		}
+		return false
 	}
 	dsem := make(chan struct{}, 5)
 	var dwg sync.WaitGroup
@@ -181,6 +232,15 @@ func runCheck(o checkOpts) int {
 			dsem <- struct{}{}
 			defer func() { <-dsem }()
 			q := ob.enc.query(ob.seq, []string{"(assert " + ob.reach.S + ")", "(assert (not " + ob.goal.S + "))"}, ob.values)
+			if o.dump != "" {
+				os.MkdirAll(o.dump, 0o755)
+				os.WriteFile(filepath.Join(o.dump, sanitize(ob.Name)+".smt2"), []byte(q), 0o644)
+			}
+			if isKnown(ob.Name) {
+				// a recorded finding: one short attempt, it is expected not to discharge
+				ob.Res = solve(ob.Name, q, 3, 1)
+				return
+			}
 			ob.Res = solve(ob.Name, q, o.timeout, needAgree)
 			if ob.Res.Status != "unsat" && (ob.Res.Status == "timeout" || ob.Res.Status == "unknown") && o.timeout < 40 {
 				// one retry at 4x before reporting
@@ -602,4 +662,40 @@ func cmdDump(args []string) int {
 		}
 	}
 	return 0
+}
+
+// lemmaObligation: a lemma is proved once, with the definitions of the opaque
+// functions it names revealed, and without the help of other lemmas.
+func (w *World) lemmaObligation(ax *Axiom, prop string) (ob *Obligation, err error) {
+	defer func() {
+		if r := recover(); r != nil {
+			if se, ok := r.(specErr); ok {
+				err = fmt.Errorf("lemma %s: %s", ax.Name, se.msg)
+				return
+			}
+			panic(r)
+		}
+	}()
+	var pkg *types.Package
+	for _, p := range w.repoPkgs() {
+		if p.Path() == ax.Pkg {
+			pkg = p
+		}
+	}
+	e := w.newEncFor(pkg)
+	e.noLemmas = true
+	for _, r := range ax.Reveal {
+		e.reveal[r] = true
+	}
+	st := e.newState()
+	x := &Ex{enc: e, w: w, pkg: pkg, vars: map[string]*T{}, lets: map[string]string{}, cur: st, old: st}
+	goal := x.Bool(ax.Expr)
+	if err := e.finalize(); err != nil {
+		return nil, err
+	}
+	props := ax.Props
+	if prop != "" && !containsStr(props, prop) {
+		props = append(append([]string{}, props...), prop)
+	}
+	return &Obligation{Name: "lemma/" + ax.Name, Kind: "lemma", Props: props, Func: "lemma", Clause: ax.Expr, seq: e.seq, reach: tTrue(), goal: goal, enc: e}, nil
 }
